@@ -7,7 +7,13 @@ PROPERTY = "C01"
 RULE = (
     "case = routing env + drawn config (size, capacity override, variant preset, reward mode ...) + batch of "
     "instances (generator-drawn under a drawn torch seed, or hand-built on an exact k/16 coordinate / k/8 demand "
-    "lattice) + one (mode, choice stream) per row; every action is taken from the row's own mask. Oracle = "
+    "lattice) + one (mode, choice stream) per row; every action is taken from the row's own mask. MDCPDP also with "
+    "start_mode='random' (start depot drawn at reset under a seed derived from the instance; the oracle is told the "
+    "drawn depot, routes are defined by the executed actions). Hand-built CVRPTW in unscaled units or (config scale=True) "
+    "in scaled units (everything divided by the depot closing time; tau 1e-4, no exact-equality class); hand-built MTVRP "
+    "in normalised units (k/8, capacity 1) or (scale_demand=False) raw units: integer demands 1-9, integer vehicle "
+    "capacity 9-24 drawn per row; hand-built closed-route MTVRP time-window rows get, half of the time, a BINDING depot "
+    "closing time (latest single-customer round trip + 1-3 lattice units: solvable, but longer routes return late). Oracle = "
     "independent problem definition (vf/oracles/routing.py) on the original instance and the executed actions. "
     "Non-trivial row-episode = (>=2 routes for depot problems or >=3 nodes otherwise) and the mask excluded a "
     "not-yet-visited node at some step; distinct = distinct (case, row) hash."
@@ -28,6 +34,12 @@ def execute(case, ctx):
     sl = spec.slice_of(case["cfg"])
     ctx.event(f"env:{name}")
     ctx.event(f"src:{case['src']}")
+    if case["src"] != "gen" and name == "cvrptw":
+        ctx.event(f"cvrptw:hand_built|{sl}_units")
+    if case["src"] != "gen" and name == "mtvrp":
+        caps = sorted({float(r["vehicle_capacity"]) for r in insts})
+        ctx.event("mtvrp:hand_built|" + ("capacity=1" if caps == [1.0] else
+                                          ("integer_capacity_same_for_all_rows" if len(caps) == 1 else "integer_capacities_differ_between_rows")))
     if ep.dead_end is not None or ep.cap_hit:
         ctx.event("aborted_episode(C02 territory)")
         return
@@ -45,6 +57,17 @@ def execute(case, ctx):
         if badp:
             ctx.violation(f"{name}|{sl}|padding_{badp[0][0]}", f"post-finish padding revisits a node: {badp}",
                           {"row": b, "actions": acts, "finish": fin})
+        if name == "mdcpdp":
+            # class counter for start_mode="random": rows whose reset state names another depot than the one the
+            # episode opens first (where bookkeeping that trusts the reset value goes wrong)
+            sd, fo = v.meta.get("start_depot"), v.meta.get("first_opened")
+            ctx.event(f"mdcpdp:start_mode={case['cfg'].get('start_mode', 'order')}|reset_depot"
+                      f"{'==' if sd == fo else '!='}first_opened")
+        if name == "mtvrp" and case["src"] != "gen" and not v.meta.get("open") and insts[b]["time_windows"][0][1] < 1e29:
+            # how binding the depot closing time is for the executed closed routes (hand-built instances make it bind)
+            back = [s_ for c_, s_ in v.slacks if c_ == "depot_deadline"]
+            if back:
+                ctx.event("mtvrp:hand_built|closed_tw|depot_return_slack" + ("<0.5" if min(back) < 0.5 else ">=0.5"))
         routes = v.meta.get("routes")
         big = (len(routes) >= 2) if routes is not None else (len(acts[:fin]) >= 3)
         if big and constraint_bit(ep, b, spec.has_depot_action):
